@@ -208,6 +208,15 @@ def isPure {α : Type} : Comp α → Bool
   | .ask .. => false
   | _ => true
 
+/-- under mode `m`: does the computation fail *at one of its questions* (rather than succeed or
+    fail mode-independently)? -/
+def failsAtAsk {α : Type} (m : Mode) : Comp α → Bool
+  | .pure _ => false
+  | .fail _ => false
+  | .ask q _ k => match q.run m with
+    | .error _ => true
+    | .ok b => (k b).failsAtAsk m
+
 /-- the errors the questions of the computation can be reported as -/
 def AskErr {α : Type} : Comp α → Err → Prop
   | .pure _, _ => False
